@@ -31,11 +31,14 @@ from vsc.model.coverpoint_bin_model_base import CoverpointBinModelBase
 
 class CoverpointBinArrayModel(CoverpointBinModelBase):
     
-    def __init__(self, name, low, high):
+    def __init__(self, name, low, high, name_base=0):
         super().__init__(name)
         self.low = low 
         self.high = high 
         self.hit_bin_idx = -1
+        # Index of this array's first element within the (user-declared) 
+        # bin array that it is part of: elements are named name[name_base+i]
+        self.name_base = name_base
         
     def finalize(self, bin_idx_base:int)->int:
         super().finalize(bin_idx_base)
@@ -50,7 +53,7 @@ class CoverpointBinArrayModel(CoverpointBinModelBase):
         )
     
     def get_bin_name(self, bin_idx):
-        return self.name + "[" + str(self.bin_idx_base+bin_idx) + "]"
+        return self.name + "[" + str(self.name_base+bin_idx) + "]"
             
     def sample(self):
         # Query value from the actual coverpoint or expression
@@ -94,7 +97,7 @@ class CoverpointBinArrayModel(CoverpointBinModelBase):
         return eq
 
     def clone(self)->'CoverpointBinArrayModel':
-        ret = CoverpointBinArrayModel(self.name, self.low, self.high)
+        ret = CoverpointBinArrayModel(self.name, self.low, self.high, self.name_base)
         ret.srcinfo_decl = None if self.srcinfo_decl is None else self.srcinfo_decl.clone()
         
         return ret
